@@ -192,6 +192,22 @@ def run(ctx: Ctx) -> None:
                     x = torch.randn(3, 5, dtype=dt)
                     versus_functional("Softmax", key, m, x, lambda z: U.softmax(z, dim=dim, mult=mult, constraint=c))
                     versus_twin("Softmax", key, m, nn.Softmax(dim=dim) if mult == 1.0 else Temp(nn.Softmax(dim=dim), mult), x)
+        # hyper-parameters are public attributes read at call time: after re-assignment (a temperature sweep on one module
+        # object) the module is the functional form with the *current* values
+        for name_, mk_, fn_ in (("GELU", lambda: uu.GELU(mult=1.0, constraint="to_output_scale"),
+                                 lambda m_, z: U.gelu(z, mult=m_.mult, constraint=m_.constraint, approximate=m_.approximate)),
+                                ("SiLU", lambda: uu.SiLU(mult=1.0, constraint="to_output_scale"),
+                                 lambda m_, z: U.silu(z, mult=m_.mult, constraint=m_.constraint)),
+                                ("Softmax", lambda: uu.Softmax(dim=-1, mult=1.0, constraint="to_output_scale"),
+                                 lambda m_, z: U.softmax(z, dim=m_.dim, mult=m_.mult, constraint=m_.constraint))):
+            m = mk_()
+            x = torch.randn(3, 5, dtype=dt)
+            m(x)                                    # used once with the constructor's values
+            for attr_, val_ in (("mult", rng.choice([0.25, 3.0])), ("constraint", rng.choice([None, "to_grad_input_scale"]))):
+                setattr(m, attr_, val_)
+                key = {"module": name_, "reassigned": attr_, "value": val_}
+                ctx.count(key, bucket=name_)
+                versus_functional(name_, key, m, x, lambda z, m_=m, fn__=fn_: fn__(m_, z))
         for p in (0.0, 0.1, 0.5):
             for training in (True, False):
                 key = {"module": "Dropout", "p": p, "training": training}
@@ -341,6 +357,26 @@ def run(ctx: Ctx) -> None:
             except Exception:
                 continue
             ctx.violation(f"C08:{cls.__name__}:option-not-rejected", "an option the library does not implement is accepted silently", key)
+        # ... also when the option is spelled positionally, and valid positional spellings are accepted
+        for cls, pos, must_raise in ((uu.Dropout, (0.5, True), True), (uu.SiLU, (1.0, "to_output_scale", True), True),
+                                     (uu.Embedding, (10, 4, None, None, 2.0, True), True),
+                                     (uu.CrossEntropyLoss, (1.0, torch.ones(5)), True),
+                                     (uu.Dropout, (0.5, False), False), (uu.SiLU, (1.0, "to_output_scale", False), False),
+                                     (uu.Embedding, (10, 4, None, None, 2.0, False), False),
+                                     (uu.CrossEntropyLoss, (1.0, None, None, 0, None, "sum"), False)):
+            key = {"module": cls.__name__, "positional": [repr(a_)[:20] for a_ in pos], "unsupported": must_raise}
+            ctx.count(key, bucket="rejected-option")
+            raised = None
+            try:
+                cls(*pos)
+            except Exception as e_:  # noqa: BLE001
+                raised = type(e_).__name__
+            if must_raise and raised is None:
+                ctx.violation(f"C08:{cls.__name__}:option-not-rejected", "an option the library does not implement (passed "
+                              "positionally) is accepted at construction", key)
+            if not must_raise and raised is not None:
+                ctx.violation(f"C08:{cls.__name__}:valid-rejected", "a valid positional spelling of the constructor arguments is rejected",
+                              key, raised)
         # ---------------- composite modules
         for exp in (1, 2, 4):
             h = rng.choice([4, 6])
